@@ -33,6 +33,7 @@ pub fn deliver_in_place<R>(d: &[u8], f: impl FnOnce(&[u8]) -> R) -> R {
         buf.resize(d.len().max(1 << 20), 0);
     }
     buf[..d.len()].copy_from_slice(d);
+    crate::ambient::note_delivery(d);
     // a panic inside `f` is caught by the callers' own guards before it gets here
     let r = f(&buf[..d.len()]);
     ARENA.with(|a| a.borrow_mut().buf = buf);
